@@ -803,7 +803,81 @@ def generate(rng, tier):
         args = [rand_value(rng, t) for t in params]
         args[0][fields.index("s")] = None
         cases.append(_mk(cid(), "nil-string-in-record", rng, params, rand_ret(rng), "ffi_fail", args=args))
+    # 8. inside ONE record argument: every position of a nil string field / nil nested record
+    #    relative to non-nil nested records (before, after, between), at every depth <= 3
+    for k, (t, v, where) in enumerate(nil_in_record_cases()):
+        params = [t] + (["i"] if k % 3 == 0 else [])
+        args = [v] + ([k] if k % 3 == 0 else [])
+        cases.append(_mk(cid(), "nil-in-record", rng, params, "i", "ffi_fail", args=args, note=where))
     return cases
+
+
+# ------------------------------------------------------------------------------------------
+# systematic nil placement inside a record argument
+
+_GOOD = [(rec("i"), [7]), (rec("s"), ["ok"]), (rec("i", rec("d")), [3, [2.5]]), (rec("p", "c"), [1, 65]),
+         (rec("s", "i"), ["left", -1]), (rec(rec("s")), [["deep"]])]
+
+
+def nil_in_record_cases():
+    """[(record type, value with exactly one nil, description)]: the nil is a nil string field or
+    a nil nested record; around it, at each level, sit non-nil nested records (and scalars) before,
+    after, or on both sides.  Deterministic (no rng): every placement is present in every run."""
+    counter = [0]
+
+    def good(maxdepth):
+        while True:
+            counter[0] += 1
+            g = _GOOD[counter[0] % len(_GOOD)]
+            if depth(g[0]) <= maxdepth:
+                return g
+
+    def carriers(d):
+        """(type of depth <= d, value with exactly one nil, description)"""
+        out = [("s", None, "nil string")]
+        if d == 0:
+            return out
+        out.append((rec("i", "s"), None, "nil record"))
+        if d == 1:
+            arrangements = ["c", "xc"]                       # no room for a nested record beside it
+        elif d == 2:
+            arrangements = ["c", "gc", "cg", "gcg"]
+        else:
+            arrangements = ["c", "gc", "cg", "gcg", "xc", "cxg"]
+        for (ct, cv, cw) in carriers(d - 1):
+            for arr in arrangements:
+                fs, vs = [], []
+                for ch in arr:
+                    if ch == "c":
+                        fs.append(ct)
+                        vs.append(cv)
+                    elif ch == "g":
+                        gt, gv = good(d - 1)
+                        fs.append(gt)
+                        vs.append(gv)
+                    else:
+                        fs.append("l")
+                        vs.append(counter[0])
+                pos = {"c": "alone", "gc": "after a non-nil record", "cg": "before a non-nil record",
+                       "gcg": "between non-nil records", "xc": "after a scalar",
+                       "cxg": "before a scalar and a non-nil record"}[arr]
+                out.append((rec(*fs), vs, "%s, %s in {%s}" % (cw, pos, arr)))
+        return out
+
+    res = []
+    seen = set()
+    for (t, v, w) in carriers(3):
+        if is_rec(t) and v is not None and depth(t) <= 3:
+            key = (tstr(t), json_key(v))
+            if key not in seen:
+                seen.add(key)
+                res.append((t, v, w))
+    return res
+
+
+def json_key(v):
+    import json as _json
+    return _json.dumps(v)
 
 
 # ------------------------------------------------------------------------------------------
